@@ -33,10 +33,10 @@ PROPS = {
     },
     "C02": {
         "level": "proof",
-        "claim": "Lean 4 theorems: for every batch, argument list and keystream the bytes BuildPayloadMessage emits, read the way Parser.c / CommandDispatcher read them, yield exactly the issued (command, request id, arguments); per-task encryption is an involution restarting at offset 0; bodies are never in clear. Demon loop bound, frame reads and reader widths are regenerated from the C sources on every run; Go/C command ids agree (decide). Correspondence: real AddJobToQueue + parseAgentRequest check-ins vs model, Spec = Demon-side decode of the real response bytes. The operator's path (TaskPrepare for COMMAND_SLEEP with generated 32-bit task ids + AddJobToQueue) is driven too: the request id on the wire must be the task id the operator was told.",
+        "claim": "Lean 4 theorems: for every batch, argument list and keystream the bytes BuildPayloadMessage emits, read the way Parser.c / CommandDispatcher read them, yield exactly the issued (command, request id, arguments); per-task encryption is an involution restarting at offset 0; bodies are never in clear. Demon loop bound, frame reads and reader widths are regenerated from the C sources on every run; Go/C command ids agree (decide). Correspondence: real AddJobToQueue + parseAgentRequest check-ins vs model, Spec = Demon-side decode of the real response bytes. The operator's path is driven through the real TaskPrepare for 27 commands (sleep, fs cd / remove / mkdir / download / cat / cp / mv / pwd, proc kill / modules / grep, job list / suspend / resume / kill, token impersonate / remove, pivot connect / disconnect, transfer list / stop / resume / remove, exit, process list) with parameters from the property's text classes (empty, ASCII, non-ASCII incl. characters outside the BMP, NUL-terminated, long) and integer boundaries: the frame the agent gets, read the way the Demon reads it - dispatch table -> handler -> the handler's ParserGet* sequence, all regenerated from Command.c (Gen.DemonHandlers; theorems table_resolves, table_kinds) - must carry the command, the task id the operator was told and the operator's parameters (Spec classes C02.operator-params, C02.request-id).",
         "note": "Trusted: Lean 4.33 kernel (axioms propext / Classical.choice / Quot.sound only, audited per theorem), fact extractors, harness + driver, Go runtime and stdlib semantics as modelled; AES-CTR keystream supplied from Go crypto/aes directly (theorems hold for every keystream); Demon C code modelled by hand + extracted facts, never compiled; command handlers represented by read kinds.",
         "technique": "Lean 4 proof (induction over job lists, generic keystream) + regenerated C/Go facts + correspondence",
-        "gen": ["Consts", "Demon"],
+        "gen": ["Consts", "Demon", "DemonHandlers"],
         "n": {"quick": 6000, "thorough": 120000},
         "seeds_thorough": 3,
         "rule": "cases from one PRNG: fresh world, 1-2 agents with random 32-byte keys / 16-byte IVs (1 in 10 all-zero), "
